@@ -103,3 +103,14 @@ Print Assumptions C09_sound_nonvacuous.
 Example C09_gap_witnesses : safe w_once = false /\ safe w_cond = false /\ safe w_inner = false.
 Proof. exact gap_witnesses. Qed.
 Print Assumptions C09_gap_witnesses.
+
+(* regenerated obligation (props/C12/translate.py -> coq/C12/GenTables.v, run by props/C09/check.py before proving): every
+   intrinsic of the tree under test is known to the frozen table of the Fortran standard's inquiry functions
+   (coq/C12/IntrTable.v), and none is flagged `is_inquiry` -- IntrinsicCall.reference_accesses then records NO read of its
+   first argument, so the dependence analysis and infer_sharing_attributes do not see that read -- unless the standard
+   classifies it as an inquiry function.  The access-list model (Model.eaccs) relies on exactly this for ABS MIN MAX MOD SIGN
+   (arguments read) and LBOUND UBOUND SIZE (first argument skipped). *)
+From PV Require Import C12.IntrTable C12.GenTables C12.IntrOblig.
+Theorem C09_inquiry_flags_sound : forallb flag_ok gen_intrinsics = true.
+Proof. exact inquiry_flags_sound. Qed.
+Print Assumptions C09_inquiry_flags_sound.
